@@ -13,24 +13,25 @@ def run(report, tier, seed):
     py_common.install_replayer(report, ('py_battery_modeling',))
     report.floor = 30
     report.not_decided += [
-        'op.__init__ establishes the invariant for constraint lists of '
-        'arbitrary length (only the bounded scenarios below are checked: its '
-        'nested loops accumulate over a list with repetitions, outside the '
-        'pointwise loop rule)',
         "'solving the edited problem equals solving a fresh op' beyond the "
         "bookkeeping invariant (the LP assembly reads only the containers "
         "under the invariant; equality of optimal values is numerical)",
-        'fromfile rebuilding the containers']
+        'fromfile rebuilding the containers',
+        'op.__init__ given a list with an element that is not a constraint '
+        '(the scenario listN assumes every element is one; the refusal is '
+        'exercised by the replay battery only)']
     report.bounded += [
-        'op.__init__ (constructor): BOUNDED stand-in, not counted as proved '
-        'for all inputs -- the invariant and the recorded contents are '
-        'checked for constraints = None, a single constraint, and lists of '
-        '0, 1, 2 and 3 symbolic constraints (each of either type, equal or '
-        'different, over arbitrary variable sets) with an arbitrary '
-        'objective; the loops are unrolled over these lists']
+        'op.__init__ scenarios list0..list3 (lists of 0..3 symbolic '
+        'constraints, loops unrolled) are kept as a cross-check of the '
+        'unbounded scenario listN; they are not what the claim rests on']
     report.assumptions += [
         'the variable set of a constraint does not change after creation',
         'contracts of dict/list operations on the abstract container view '
         '(contracts/py/modeling_op_spec.py)',
         'the objective assigned is a scalar convex _function (the other '
-        'accepted forms are converted by one line each)']
+        'accepted forms are converted by one line each)',
+        'op.__init__ listN: a Python list of length N is the sequence '
+        'elem(0..N-1); the ghost prefix count before(k, c) is defined by '
+        'recursion and instantiated at the loop counter; a list whose '
+        'multiset is cnt is some enumeration of it (loops over '
+        '_inequalities / _equalities)']
